@@ -233,7 +233,7 @@ theorem subInv_instStart (s : Stack) (i : Nat) (hi : SubInv s) : SubInv (s.instS
 theorem subInv_sendOffer (s : Stack) (i : Nat) (r : Dest) (b : Bool) (hi : SubInv s) : SubInv (s.sendOffer i r b) :=
   subInv_frame (spi_sendOffer _ _ _ _) hi
 
-theorem subInv_stepOffer (s : Stack) (tid : Nat) (t : TaskSt) (i : Nat) (hi : SubInv s) : SubInv (s.stepOffer tid t i) := by
+theorem subInv_stepOffer (s : Stack) (tid : Tid) (t : TaskSt) (i : Nat) (hi : SubInv s) : SubInv (s.stepOffer tid t i) := by
   unfold stepOffer
   simp only []
   have hc : ∀ X : Stack, SubInv X → SubInv (if X.tm.cyclicOfferDelay ≠ 0 then X.sendOffer i none true else X) := by
@@ -286,13 +286,13 @@ theorem subInv_instStop (s : Stack) (i : Nat) (hi : SubInv s) : SubInv (s.instSt
     · rename_i tid htid
       simp only []
       apply subInv_subsStopAll
-      have hx' : (s.cancelTask tid).getInst i = some x := by
-        have : spi (s.cancelTask tid) = spi s := spi_cancelTask _ _
+      have hx' : (s.cancelTask (.offer i, tid)).getInst i = some x := by
+        have : spi (s.cancelTask (.offer i, tid)) = spi s := spi_cancelTask _ _
         unfold getInst
-        have hinst : (s.cancelTask tid).instances = s.instances := by
+        have hinst : (s.cancelTask (.offer i, tid)).instances = s.instances := by
           unfold cancelTask; split; rfl; split; rfl; split <;> rfl
         rw [hinst]; exact hx
-      have h1 : SubInv ((s.cancelTask tid).setInst i { x with task := none, canAnswer := false }) :=
+      have h1 : SubInv ((s.cancelTask (.offer i, tid)).setInst i { x with task := none, canAnswer := false }) :=
         subInv_setInst_same _ i x _ hx' rfl (subInv_frame (spi_cancelTask _ _) hi)
       split
       · exact subInv_sendOffer _ _ _ _ h1
